@@ -361,6 +361,7 @@ func (fr *Frame) calleeKey(c *ssa.CallCommon) (string, *ssa.Function) {
 func (fr *Frame) call(ci ssa.CallInstruction, c *ssa.CallCommon) []*Term {
 	enc := fr.enc
 	w := enc.w
+	fr.atCallChecks(ci, c)
 	if b, ok := c.Value.(*ssa.Builtin); ok {
 		return fr.builtin(ci, c, b)
 	}
@@ -978,4 +979,39 @@ func (fr *Frame) behaviourOf(v ssa.Value) string {
 		}
 	}
 	return ""
+}
+
+// atCallChecks asserts the function's "atcall" clauses before a matching call.
+func (fr *Frame) atCallChecks(ci ssa.CallInstruction, c *ssa.CallCommon) {
+	if fr.fc == nil || len(fr.fc.AtCalls) == 0 || fr.parent != nil {
+		return
+	}
+	name := ""
+	if b, ok := c.Value.(*ssa.Builtin); ok {
+		name = b.Name()
+	} else {
+		name, _ = fr.calleeKey(c)
+	}
+	if name == "" {
+		return
+	}
+	for i, ac := range fr.fc.AtCalls {
+		if !strings.HasSuffix(name, ac.Kind) {
+			continue
+		}
+		env := fr.env(fr.cur)
+		env.where = ac.Where()
+		// the loop this call sits in (for name resolution of loop-carried variables)
+		var li *loopInfo
+		for _, l := range fr.loops {
+			if l.body[fr.curBlock.Index] {
+				if li == nil || len(l.body) < len(li.body) {
+					li = l
+				}
+			}
+		}
+		env.resolve = func(n string) (TV, bool) { return fr.resolveNameAt(n, li, ci) }
+		t := fr.safeTr(env, ac)
+		fr.enc.oblige(fmt.Sprintf("atcall%d", i+1), fr.where(ci), "before calling "+ac.Kind+": "+ac.Text, ac.Tags, fr.curPC, t)
+	}
 }
